@@ -5,7 +5,7 @@
    runs, steps or resumes. *)
 From Coq Require Import List NArith Bool String.
 From Verif Require Import model.ActionRow gen.ActionResults model.Inspect model.InspectExec.
-From Verif Require Import proofs.InspectProofs proofs.InspectExecProofs.
+From Verif Require Import proofs.InspectProofs proofs.InspectExecProofs proofs.InspectExecAccepts proofs.InspectExecAcceptsAll.
 Import ListNotations.
 Open Scope N_scope.
 
@@ -186,3 +186,16 @@ Theorem c20_engine_dependencies_or_implicit : forall names A pick act touch msg_
     /\ ((In r (dependencies f) /\ ref_variable r = false) \/ touched_implicitly names f r).
 Proof. exact engine_dependencies_or_implicit. Qed.
 Print Assumptions c20_engine_dependencies_or_implicit.
+
+(* ---- engine traces are accepted traces: EVERY trace the executable engine computes — all oracles, fuel, start flow,
+   resume history, child runs included — is accepted by the step acceptor of Inspect.v, position check included (a step
+   continues where the previous step of its run left; a run starts at the first node of its flow, a child run under an
+   enter_flow of that flow on the node its parent is paused on; the parent goes on from the step it was paused on after
+   the child's steps), when the flows have pairwise different ids (evaluated for every case in InspectCorr.check).
+   Hence c20_results_covered_or_f16, c20_waiting_exits and c20_dependencies_or_implicit apply to every engine trace by
+   theorem, and the acceptor's position_ok / node_enters have a theorem. *)
+Theorem c20_engine_traces_accepted : forall names A pick act touch msg_trigger fuel fid history,
+  distinct_flow_ids A = true ->
+  accepts names A (exec names A pick act touch msg_trigger fuel fid history) = true.
+Proof. exact engine_traces_accepted. Qed.
+Print Assumptions c20_engine_traces_accepted.
